@@ -509,7 +509,9 @@ def _sample_chain(  # noqa: PLR0912
             f"initialising adapters.",
         )
         _flush_memmap_chain_data(chain_traces, chain_stats)
-        return state, adapter_states, exception
+        # Discard partially initialised adapter states so that the per-chain
+        # states collated across chains have consistent lengths
+        return state, {}, exception
     try:
         sample_index = 0
         with chain_iterator:
